@@ -27,6 +27,7 @@ class Gen:
         self.w, self.ex = world, ex
         self.n = 0
         self.vars = {}
+        self.assume = []
 
     def fresh(self, base):
         self.n += 1
@@ -74,6 +75,11 @@ class Gen:
             return w.c_bool(b), ("bool", b)
         if kind == "unit":
             return w.c_unit(), ("unit",)
+        if kind == "data":
+            from specs import data as SD
+            shape = length or "opaque"
+            d, dv = self.data(shape)
+            return w.adt("Constant", "Data", d), ("data", dv)
         if kind.startswith("list:"):
             ek = kind[5:]
             items = [self.const(ek) for _ in range(length or 0)]
@@ -85,6 +91,43 @@ class Gen:
             cb, sb = self.const(b)
             return w.adt("Constant", "ProtoPair", self.ty(a), self.ty(b), w.rc(ca), w.rc(cb)), ("pair", sa, sb)
         raise Unsupported(f"constant of kind {kind}")
+
+    def data(self, shape: str):
+        """-> (mirsym PlutusData, DataV) for a top-level shape; children are opaque"""
+        from specs import data as SD
+        w, ex = self.w, self.ex
+        if shape == "opaque":
+            o = SD.mk_opaque()
+            return o, ("opaque", o.e)
+        if shape in ("i", "ibig", "ineg"):
+            e = z3.Int(self.fresh("di"))
+            self.vars[str(e)] = e
+            d, cons = SD.mk_int(w, e, {"i": "small", "ibig": "big", "ineg": "neg"}[shape])
+            self.assume.append(cons)
+            return d, ("i", e)
+        if shape == "b":
+            s_ = z3.Const(self.fresh("db"), ByteSeq)
+            self.vars[str(s_)] = s_
+            return SD.mk_bytes(w, s_), ("b", s_)
+        kids = int(shape[-1])
+        if shape.startswith("list"):
+            ch = [SD.mk_opaque() for _ in range(kids)]
+            return SD.mk_list(w, ch), ("list", [("opaque", c.e) for c in ch])
+        if shape.startswith("map"):
+            ch = [(SD.mk_opaque(), SD.mk_opaque()) for _ in range(kids)]
+            return SD.mk_map(w, ch), ("map", [(("opaque", k.e), ("opaque", v.e)) for k, v in ch])
+        ch = [SD.mk_opaque() for _ in range(kids)]
+        tag = z3.BitVec(self.fresh("tag"), 64)
+        self.vars[str(tag)] = tag
+        if shape.startswith("constrc"):  # compact tags 121..127 / 1280..1400
+            self.assume.append(SD.well_formed_tag(z3.BV2Int(tag, False), False))
+            d = SD.mk_constr(w, ex, BV(tag, 64, False), Adt("Option", "None", ()), ch)
+            return d, ("constr", SD.logical_index(z3.BV2Int(tag, False), None), [("opaque", c.e) for c in ch])
+        anyc = z3.BitVec(self.fresh("anyc"), 64)
+        self.vars[str(anyc)] = anyc
+        self.assume.append(SD.well_formed_tag(z3.BV2Int(tag, False), True))
+        d = SD.mk_constr(w, ex, BV(tag, 64, False), Adt("Option", "Some", (BV(anyc, 64, False),)), ch)
+        return d, ("constr", SD.logical_index(z3.BV2Int(tag, False), z3.BV2Int(anyc, False)), [("opaque", c.e) for c in ch])
 
     def value(self, kind: str, length=None):
         if kind == "any":
@@ -239,7 +282,8 @@ def instantiate(kinds, tier):
                 ks.append(f"pair:{ek},{'bytes' if ek == 'int' else 'int'}")
             else:
                 ks.append(k)
-        lens_axes = [range(0, maxlen + 1) if k.startswith("list:") else [None] for k in ks]
+        dshapes = ["i", "ibig", "ineg", "b", "list0", "list2", "map0", "map1", "constrc0", "constrc2", "constra1"]
+        lens_axes = [range(0, maxlen + 1) if k.startswith("list:") else (dshapes if k == "data" else [None]) for k in ks]
         for lens in itertools.product(*lens_axes):
             insts.append((ks, list(lens)))
     return insts
@@ -248,6 +292,7 @@ def instantiate(kinds, tier):
 def run_call(world: World, ex, fn_call, variant: str, sem: str, argvals, g=None):
     st = ex.new_state()
     if g is not None:
+        st.pc += list(g.assume)
         for v in g.vars.values():
             if z3.is_seq(v):
                 st.pc.append(z3.Length(v) <= (1 << 40))  # stated bound: byte strings shorter than 2^40 bytes
@@ -258,6 +303,7 @@ def run_call(world: World, ex, fn_call, variant: str, sem: str, argvals, g=None)
 
 
 WRONG = {"int": "bytes", "bytes": "int", "str": "bytes", "bool": "int", "unit": "int", "data": "int"}
+DEFAULT_SHAPE = {"data": "i"}
 
 
 def builtin_obligations(world: World, res: Result, tier: str, only_builtin=None):
@@ -268,10 +314,14 @@ def builtin_obligations(world: World, res: Result, tier: str, only_builtin=None)
         res.add(Obligation("builtin/*", "undecided", str(e)))
         return
     sems = SEMANTICS
-    for name, (kinds, spec) in SB.SPEC.items():
+    table = dict(SB.SPEC)
+    for nm, ks in SB.KINDS_ONLY.items():
+        table.setdefault(nm, (ks, None))
+    for name, (kinds, spec) in table.items():
         if only_builtin and only_builtin != name:
             continue
-        var = variant_name(name)
+        from specs.cek import variant_of
+        var = variant_of(name)
         if var not in have:
             res.add(Obligation(f"builtin/{name}", "undecided", f"DefaultFunction::{var} not declared in the current sources"))
             continue
@@ -284,101 +334,123 @@ def one_builtin(world, res, tier, fn_call, name, var, kinds, spec, sem):
     ob = Obligation(f"builtin/{name}[{sem}]", "discharged", "")
     npaths = 0
     n_ok = n_fail = 0
+    bads = {}  # finding key -> (status, detail, model)
+
+    def note(bad, ks, lens):
+        status, detail, model, fkey = bad
+        if status == "undecided":
+            if ob.status == "discharged":
+                ob.status, ob.detail = "undecided", f"{detail} (arg kinds {ks}, lens {lens})"
+            return
+        key = f"builtin {name}: {fkey}"
+        if key not in bads:
+            if model is not None:
+                model = dict(model)
+                model.update({"builtin": name, "semantics": sem, "arg_kinds": ks, "shapes": lens})
+            bads[key] = (f"{detail} (arg kinds {ks}, lens {lens})", model)
+
     try:
-        for ks, lens in instantiate(kinds, tier):
-            g = Gen(world, ex)
-            pairs = [g.value(k, ln) for k, ln in zip(ks, lens)]
-            outs, st = run_call(world, ex, fn_call, var, sem, [v for v, _ in pairs], g)
-            cases = spec(sem, *[sv if ok_ == 'elem' else spec_arg(sv) for (_, sv), ok_ in zip(pairs, kinds)])
-            npaths += len(outs)
-            bad = check_outcomes(world, ex, outs, cases, g)
-            if bad:
-                status, detail, model, fkey = bad
-                ob.status, ob.detail, ob.model = status, f"{detail} (arg kinds {ks}, lens {lens})", model
-                ob.finding_key = f"builtin {name}: {fkey}" if fkey else None
-                break
-            n_ok += sum(1 for o in outs if o.kind == "return" and o.value.variant == "Ok")
-            n_fail += sum(1 for o in outs if o.kind == "return" and o.value.variant == "Err")
+        if spec is not None:
+            for ks, lens in instantiate(kinds, tier):
+                g = Gen(world, ex)
+                pairs = [g.value(k, ln) for k, ln in zip(ks, lens)]
+                outs, st = run_call(world, ex, fn_call, var, sem, [v for v, _ in pairs], g)
+                cases = spec(sem, *[sv if ok_ == 'elem' else spec_arg(sv) for (_, sv), ok_ in zip(pairs, kinds)])
+                npaths += len(outs)
+                for bad in check_outcomes(world, ex, outs, cases, g):
+                    note(bad, ks, lens)
+                n_ok += sum(1 for o in outs if o.kind == "return" and o.value.variant == "Ok")
+                n_fail += sum(1 for o in outs if o.kind == "return" and o.value.variant == "Err")
+        else:
+            # no result specification: only absence of panics on well-typed arguments
+            for ks, lens in instantiate(kinds, tier):
+                g = Gen(world, ex)
+                pairs = [g.value(k, ln) for k, ln in zip(ks, lens)]
+                outs, st = run_call(world, ex, fn_call, var, sem, [v for v, _ in pairs], g)
+                npaths += len(outs)
+                for o in outs:
+                    if o.kind == "undecided":
+                        note(("undecided", o.msg, None, None), ks, lens)
+                    elif o.kind == "panic":
+                        note(("violated", f"panic: {o.msg}", model_dict(ex.model(o.pc), g), "panic " + panic_class(o.msg)), ks, lens)
+                n_ok += sum(1 for o in outs if o.kind == "return")
         # ill-typed arguments: every position, a constant of another type and a non-constant
-        if ob.status == "discharged":
-            for pos, k in enumerate(kinds):
-                if k in ("any",):
-                    continue
-                for wrong in ("const", "nonconst"):
-                    g = Gen(world, ex)
-                    ks, lens = instantiate(kinds, "quick")[-1]
-                    vals = [g.value(kk, ln)[0] for kk, ln in zip(ks, lens)]
-                    if wrong == "const":
-                        base = ks[pos].split(":")[0]
-                        wk = WRONG.get(base, "int") if base not in ("list", "pair") else "int"
-                        vals[pos] = g.value(wk)[0]
-                    else:
-                        vals[pos] = g.nonconst()
-                    outs, st = run_call(world, ex, fn_call, var, sem, vals, g)
-                    npaths += len(outs)
-                    for o in outs:
-                        if o.kind == "undecided":
-                            # an ill-typed run may stop at a later, unsupported, part of the arm: only if it got that far
-                            ob.status, ob.detail = "undecided", f"ill-typed arg {pos} ({wrong}): {o.msg}"
-                            break
-                        if o.kind == "panic":
-                            m = ex.model(o.pc)
-                            ob.status, ob.detail = "violated", f"panic on ill-typed argument {pos} ({wrong}): {o.msg}"
-                            ob.finding_key = f"builtin {name}: panic ill-typed arg{pos}"
-                            break
-                        if o.value.variant != "Err":
-                            ob.status, ob.detail = "violated", f"ill-typed argument {pos} ({wrong}) accepted: {o.value!r}"[:300]
-                            ob.finding_key = f"builtin {name}: ill-typed arg{pos} accepted"
-                            break
-                    if ob.status != "discharged":
-                        break
-                if ob.status != "discharged":
-                    break
+        for pos, k in enumerate(kinds):
+            if k in ("any",):
+                continue
+            for wrong in ("const", "nonconst"):
+                g = Gen(world, ex)
+                ks, lens = instantiate(kinds, "quick")[-1]
+                vals = [g.value(kk, ln)[0] for kk, ln in zip(ks, lens)]
+                if wrong == "const":
+                    base = ks[pos].split(":")[0]
+                    wk = WRONG.get(base, "int") if base not in ("list", "pair") else "int"
+                    vals[pos] = g.value(wk)[0]
+                else:
+                    vals[pos] = g.nonconst()
+                outs, st = run_call(world, ex, fn_call, var, sem, vals, g)
+                npaths += len(outs)
+                for o in outs:
+                    if o.kind == "undecided":
+                        note(("undecided", f"ill-typed arg {pos} ({wrong}): {o.msg}", None, None), ks, lens)
+                    elif o.kind == "panic":
+                        note(("violated", f"panic on ill-typed argument {pos} ({wrong}): {o.msg}", None, f"panic ill-typed arg{pos}"), ks, lens)
+                    elif o.value.variant != "Err":
+                        note(("violated", f"ill-typed argument {pos} ({wrong}) accepted: {o.value!r}"[:300], None, f"ill-typed arg{pos} accepted"), ks, lens)
     except Unsupported as e:
-        ob.status, ob.detail = "undecided", str(e)
+        if ob.status == "discharged":
+            ob.status, ob.detail = "undecided", str(e)
     if ob.status == "discharged":
-        ob.detail = f"{npaths} paths; Ok paths {n_ok}, Err paths {n_fail}"
+        ob.detail = f"{npaths} paths; Ok paths {n_ok}, Err paths {n_fail}" + (f"; {len(bads)} deviation(s) reported separately" if bads else "")
         ob.witness = n_ok > 0
         if n_ok == 0:
             ob.status, ob.detail = "undecided", "vacuous: no successful path"
     ob.queries, ob.solver_s = ex.queries, round(ex.solver_s, 3)
     res.functions.update(ex.encoded)
     res.add(ob)
+    for key, (detail, model) in bads.items():
+        vb = Obligation(f"builtin/{name}[{sem}]/{key.split(': ', 1)[1]}", "violated", detail)
+        vb.model, vb.finding_key = model, key
+        res.add(vb)
 
 
 def check_outcomes(world, ex, outs, cases, g: Gen):
-    """None if all outcomes agree with the spec cases, else (status, detail, model, finding_key)."""
+    """list of (status, detail, model, finding_key) for every disagreement with the spec cases"""
+    bad = []
     for o in outs:
         if o.kind == "undecided":
-            return ("undecided", o.msg, None, None)
+            return [("undecided", o.msg, None, None)]
     for o in outs:
         if o.kind == "panic":
             m = ex.model(o.pc)
-            return ("violated", f"panic: {o.msg}", model_dict(m, g), "panic " + panic_class(o.msg))
+            bad.append(("violated", f"panic: {o.msg}", model_dict(m, g), "panic " + panic_class(o.msg)))
+            continue
         for cond, expected in cases:
             r = ex.check(o.pc, cond)
             if r == "unsat":
                 continue
             if r == "unknown":
-                return ("undecided", "solver unknown (case feasibility)", None, None)
+                bad.append(("undecided", "solver unknown (case feasibility)", None, None))
+                continue
             v = o.value
             if expected == SB.FAIL:
                 if v.variant != "Err":
                     m = ex.model(o.pc, cond)
-                    return ("violated", f"specification fails but the builtin returned {v!r}"[:400], model_dict(m, g), "ok-instead-of-fail")
+                    bad.append(("violated", f"specification fails but the builtin returned {v!r}"[:400], model_dict(m, g), "ok-instead-of-fail"))
                 continue
             if v.variant != "Ok":
                 m = ex.model(o.pc, cond)
-                return ("violated", f"specification returns a value but the builtin failed with {v.fields[0]!r}"[:400], model_dict(m, g), "fail-instead-of-ok")
+                bad.append(("violated", f"specification returns a value but the builtin failed with {v.fields[0]!r}"[:400], model_dict(m, g), "fail-instead-of-ok"))
+                continue
             actual = decode_value(world, ex, v.fields[0])
             neq = z3.Not(eq_spec(actual, expected))
             r = ex.check(o.pc, cond, neq)
             if r == "sat":
                 m = ex.model(o.pc, cond, neq)
-                return ("violated", f"wrong result: got {show(m, actual)}, specification {show(m, expected)}", model_dict(m, g), "wrong-result")
-            if r == "unknown":
-                return ("undecided", "solver unknown (result equality)", None, None)
-    return None
+                bad.append(("violated", f"wrong result: got {show(m, actual)}, specification {show(m, expected)}", model_dict(m, g), "wrong-result"))
+            elif r == "unknown":
+                bad.append(("undecided", "solver unknown (result equality)", None, None))
+    return bad
 
 
 def panic_class(msg: str) -> str:
